@@ -12,6 +12,7 @@ from ..core import (
     call_name,
     calls_in,
     dotted,
+    enclosing_class,
     enclosing_function,
     is_self_attr,
     loc,
@@ -422,6 +423,11 @@ def r6_weights_in_one_unit(ctx: Context) -> None:
                 for d in ast.walk(fn if fn is not None else m.tree):
                     if isinstance(d, ast.FunctionDef) and d.name == w.id:
                         bodies = [r.value for r in ast.walk(d) if isinstance(r, ast.Return) and r.value is not None]
+            elif isinstance(w, ast.Attribute) and isinstance(w.value, ast.Name):
+                # a method handed over by reference: self._weight / JobGraph._weight
+                cls = enclosing_class(c)
+                if cls is not None and w.attr in methods(cls):
+                    bodies = [r.value for r in ast.walk(methods(cls)[w.attr]) if isinstance(r, ast.Return) and r.value is not None]
             if not bodies:
                 continue
             n += 1
